@@ -20,6 +20,7 @@ func checkC11(p *Prog, r *Report) {
 	checkOptionGuards(p, r)
 	checkModTimeEqual(p, r, "C11/SECOND-GRANULARITY")
 	checkKeepPerms(p, r)
+	checkFreshStat(p, r)
 	checkKeepPermsTransferred(p, r)
 	checkTypeTables(p, r)
 	checkFieldBindings(p, r)
@@ -47,6 +48,9 @@ func checkSetPermsPathsAs(p *Prog, r *Report, rule string) {
 	idxP := fn.Params[1]
 	var pe *PathEnum
 	isModeVal := func(v ssa.Value) bool {
+		if pe != nil {
+			v = pe.C(unwrapLocal(v)) // a helper's parameter → the caller's argument
+		}
 		b, ok := v.(*ssa.BinOp)
 		if !ok || b.Op != token.AND {
 			return false
@@ -281,7 +285,16 @@ func checkOptionGuardsAs(p *Prog, r *Report, rule string, timesOnly bool) {
 		}
 		return false
 	}
-	allCalls(sp, func(c ssa.CallInstruction) {
+	spUnit := p.ModGraph().unitFuncs(sp)
+	forSP := func(f func(ssa.CallInstruction)) {
+		for _, u := range spUnit {
+			if u == su {
+				continue
+			}
+			allCalls(u, f)
+		}
+	}
+	forSP(func(c ssa.CallInstruction) {
 		switch calleeName(c) {
 		case "(*os.Root).Chtimes":
 			a := c.Common().Args
@@ -617,13 +630,16 @@ func checkTypeTables(p *Prog, r *Report) {
 		modeF := p.Field(pkgReceiver, "File", "Mode")
 		want := map[string]string{"CHR": "Mknodat:CHR", "BLK": "Mknodat:BLK", "FIFO": "Mkfifoat", "SOCK": "Bind"}
 		for _, t := range []string{"CHR", "BLK", "FIFO", "SOCK"} {
-			s := &Sim{Fn: cd, Completed: func(ret *ssa.Return) bool { return true },
+			var s *Sim
+			s = &Sim{Fn: cd, Completed: func(ret *ssa.Return) bool { return true },
+				// helpers of the package that createDevice delegates to (mknodat(dir, base, mode, rdev), …)
+				Inline: func(f *ssa.Function) bool { return pkgPathOfFunc(f) == pkgReceiver && f.Name() != "setPerms" },
 				Atom: func(cond ssa.Value) (bool, bool) {
 					bo, ok := cond.(*ssa.BinOp)
 					if !ok || bo.Op != token.EQL {
 						return false, false
 					}
-					and, ok := bo.X.(*ssa.BinOp)
+					and, ok := s.C(bo.X).(*ssa.BinOp)
 					if !ok || and.Op != token.AND || !isFieldLoad(and.X, modeF) {
 						return false, false
 					}
@@ -641,7 +657,7 @@ func checkTypeTables(p *Prog, r *Report) {
 					}
 					switch calleeName(c) {
 					case pkgUnix + ".Mknodat":
-						if bo, ok := c.Common().Args[2].(*ssa.BinOp); ok && bo.Op == token.OR {
+						if bo, ok := s.C(c.Common().Args[2]).(*ssa.BinOp); ok && bo.Op == token.OR {
 							if k, isK := constInt(bo.Y); isK {
 								return "Mknodat:" + sifmt[k]
 							}
@@ -762,7 +778,13 @@ func checkFieldBindings(p *Prog, r *Report) {
 	rdevF := p.Field(pkgReceiver, "File", "Rdev")
 	forUnit(cd, func(c ssa.CallInstruction) {
 		if calleeName(c) == pkgUnix+".Mknodat" {
-			r.Cond(isFieldLoad(stripConv(c.Common().Args[3]), rdevF), rule, "createDevice → Mknodat(dev=f.Rdev)", p.Pos(instrPos(c)), "device number must be the received rdev")
+			okDev := true
+			for _, root := range g.paramRoots(stripConv(c.Common().Args[3]), 0) {
+				if !isFieldLoad(stripConv(root), rdevF) {
+					okDev = false
+				}
+			}
+			r.Cond(okDev, rule, "createDevice → Mknodat(dev=f.Rdev)", p.Pos(instrPos(c)), "device number must be the received rdev")
 		}
 	})
 	// symlink(DestRoot, f.LinkTarget, f.Name)
